@@ -120,7 +120,8 @@ def dKeepRaw {α : Type} (e : Dyn α) : Dyn (KeepRaw α) :=
       | f + 1, "kr" :: h :: rest =>
         match Tok.unhex h with
         | none => none
-        | some raw => (e.parse f rest).map fun (x, r) => (⟨raw, x⟩, r)
+        -- `kr - v` is a `From<T>` value (owned, empty); otherwise it was decoded (borrowed span)
+        | some raw => (e.parse f rest).map fun (x, r) => (⟨if raw.isEmpty then .owned [] else .borrowed raw, x⟩, r)
       | _, _ => none }
 
 def dPair {α β : Type} (a : Dyn α) (b : Dyn β) : Dyn (α × β) :=
@@ -246,25 +247,127 @@ def mutOp (ty : String) (bs : Bytes) (k : Option Nat) : String :=
       "ok " ++ Tok.hex (KeepRaw.enc cAnyUInt kr')
   else "bad-op"
 
-def step (_ : Unit) : List String → Unit × String
+/-- the `KeepRaw` value a case is operating on (`kr.*` ops) -/
+inductive Slot where
+  | none
+  | vec (k : KeepRaw (List Nat))
+  | any (k : KeepRaw AnyUInt)
+
+def showVecNat (xs : List Nat) : String := showSeq "[" toString xs "]"
+
+def Slot.map (s : Slot) (f : {α : Type} → KeepRaw α → KeepRaw α) : Slot :=
+  match s with
+  | .none => .none
+  | .vec k => .vec (f k)
+  | .any k => .any (f k)
+
+/-- one `kr.*` operation on the slot -/
+def krStep (s : Slot) : List String → Slot × String
+  | ["kr.dec", ty, h] =>
+    match Tok.unhex h with
+    | none => (s, "bad-op")
+    | some bs =>
+      if ty = "keepraw.vec.u64" then
+        match KeepRaw.dec (cVec cU64) bs with
+        | .ok k _ => (.vec k, "ok " ++ showVecNat k.inner)
+        | .err e => (.none, "err " ++ e.show)
+      else if ty = "keepraw.anyuint" then
+        match KeepRaw.dec cAnyUInt bs with
+        | .ok k _ => (.any k, "ok " ++ showAnyUInt k.inner)
+        | .err e => (.none, "err " ++ e.show)
+      else (s, "bad-op")
+  | ["kr.from", ty, h] =>
+    match Tok.unhex h with
+    | none => (s, "bad-op")
+    | some bs =>
+      if ty = "keepraw.vec.u64" then
+        match (cVec cU64).dec bs with
+        | .ok a _ => (.vec (KeepRaw.from a), "ok " ++ showVecNat a)
+        | .err e => (.none, "err " ++ e.show)
+      else if ty = "keepraw.anyuint" then
+        match cAnyUInt.dec bs with
+        | .ok a _ => (.any (KeepRaw.from a), "ok " ++ showAnyUInt a)
+        | .err e => (.none, "err " ++ e.show)
+      else (s, "bad-op")
+  | [op] =>
+    match s with
+    | .none => (s, if op.startsWith "kr." then "err empty" else "bad-op")
+    | _ =>
+      if op = "kr.own" then (s.map KeepRaw.toOwned, "ok")
+      else if op = "kr.clone" then (s.map KeepRaw.clone, "ok")
+      else if op = "kr.clear" then (s.map KeepRaw.clearRaw, "ok")
+      else if op = "kr.peek" then
+        (s, match s with | .vec k => "ok " ++ showVecNat k.inner | .any k => "ok " ++ showAnyUInt k.inner | .none => "err empty")
+      else if op = "kr.unwrap" then
+        (.none, match s with | .vec k => "ok " ++ showVecNat k.unwrap | .any k => "ok " ++ showAnyUInt k.unwrap | .none => "err empty")
+      else if op = "kr.enc" then
+        (s, match s with
+          | .vec k => "ok " ++ Tok.hex (KeepRaw.enc (cVec cU64) k)
+          | .any k => "ok " ++ Tok.hex (KeepRaw.enc cAnyUInt k)
+          | .none => "err empty")
+      else if op = "kr.raw" then
+        (s, match s with | .vec k => "ok " ++ Tok.hex k.raw | .any k => "ok " ++ Tok.hex k.raw | .none => "err empty")
+      else (s, "bad-op")
+  | ["kr.mut", k] =>
+    match k.toNat?, s with
+    | some k, .vec kr => (.vec (kr.derefMut (· ++ [k])), "ok")
+    | some k, .any kr => (.any (kr.derefMut (fun _ => .u16 (k % 65536))), "ok")
+    | some _, .none => (s, "err empty")
+    | none, _ => (s, "bad-op")
+  | _ => (s, "bad-op")
+
+/-- conversions between the wrappers that are meant to keep the form / the content -/
+def convOp (name : String) (bs : Bytes) : String :=
+  if name = "kvp2ne" then
+    -- `NonEmptyKeyValuePairs::try_from(KeyValuePairs)`: same variant, `Err` when empty
+    match (cKVP cAnyUInt cAnyUInt).dec bs with
+    | .err e => "err " ++ e.show
+    | .ok m _ => if m.items.isEmpty then "err empty" else "ok " ++ Tok.hex ((cKVP cAnyUInt cAnyUInt).enc m)
+  else if name = "kvp2vec" then
+    -- `KeyValuePairs::from(kvp.to_vec())`: always `Def`
+    match (cKVP cAnyUInt cAnyUInt).dec bs with
+    | .err e => "err " ++ e.show
+    | .ok m _ => "ok " ++ Tok.hex ((cKVP cAnyUInt cAnyUInt).enc (.defn m.items))
+  else if name = "mia2vec" then
+    -- `MaybeIndefArray::to_vec()` re-encoded as a plain `Vec`
+    match (cMaybeIndef cAnyUInt).dec bs with
+    | .err e => "err " ++ e.show
+    | .ok m _ => "ok " ++ Tok.hex ((cVec cAnyUInt).enc m.items)
+  else if name = "anycbor.from_encode" then
+    -- `AnyCbor::from_encode(v)` holds `to_vec(v)`
+    match (cMaybeIndef cAnyUInt).dec bs with
+    | .err e => "err " ++ e.show
+    | .ok m _ => "ok " ++ Tok.hex (cAnyCbor.enc ((cMaybeIndef cAnyUInt).enc m))
+  else if name = "set.unkeep" then
+    -- `Set<T>::from(Set<KeepRaw<T>>)`: the contents, raw bytes dropped
+    match (cSet (cKeepRaw cAnyUInt)).dec bs with
+    | .err e => "err " ++ e.show
+    | .ok ks _ => "ok " ++ Tok.hex ((cSet cAnyUInt).enc (ks.map KeepRaw.unwrap))
+  else "bad-op"
+
+def step (s : Slot) : List String → Slot × String
   | ["dec", ty, h] =>
     match tyOf ty, Tok.unhex h with
-    | some a, some bs => ((), decOp a.d bs)
-    | _, _ => ((), "bad-op")
+    | some a, some bs => (s, decOp a.d bs)
+    | _, _ => (s, "bad-op")
   | "rt" :: ty :: _seed :: v =>
     match tyOf ty with
-    | some a => ((), rtOp a.d v)
-    | none => ((), "bad-op")
+    | some a => (s, rtOp a.d v)
+    | none => (s, "bad-op")
   | ["mut", ty, h, k] =>
     match Tok.unhex h, k.toNat? with
-    | some bs, some k => ((), mutOp ty bs (some k))
-    | _, _ => ((), "bad-op")
+    | some bs, some k => (s, mutOp ty bs (some k))
+    | _, _ => (s, "bad-op")
   | ["peek", ty, h] =>
     match Tok.unhex h with
-    | some bs => ((), mutOp ty bs none)
-    | none => ((), "bad-op")
-  | _ => ((), "bad-op")
+    | some bs => (s, mutOp ty bs none)
+    | none => (s, "bad-op")
+  | ["conv", name, h] =>
+    match Tok.unhex h with
+    | some bs => (s, convOp name bs)
+    | none => (s, "bad-op")
+  | toks => krStep s toks
 
-def stream : Stream := { name := "cborwrap", σ := Unit, init := (), step := step }
+def stream : Stream := { name := "cborwrap", σ := Slot, init := .none, step := step }
 
 end PallasVerif.Streams.Cborwrap
